@@ -55,7 +55,9 @@ static int the_cb(jwt_t *jwt, jwt_config_t *cfg)
 
 static const char *NAMES_H[] = { "typ", "alg", "kid", "cty", "x", "crit" };
 static const char *NAMES_C[] = { "iat", "nbf", "exp", "iss", "sub", "n", "data" };
-static const char *STRV[] = { "JWT", "none", "HS256", "at+jwt", "", "\xc3\xa9", "value" };
+static const char *STRV[] = { "JWT", "none", "HS256", "at+jwt", "", "\xc3\xa9", "value",
+	"ES256K", "ES256", "ES384", "ES512", "RS256", "PS256", "EdDSA", "HS384", "HS512", "HS256x", "HS2560", "hs256", "ES25", "ES", "RS2566", "PS256 ", "EdDSAx", "ES256KK" };
+#define NSTRV 25
 static const char *JSONV[] = { "{\"a\":1}", "[1,2]", "{}", "[\"HS256\"]", "{\"alg\":\"none\"}" };
 static const long INTV[] = { 0, 1, -1, 1700000000L, INT64_MAX, INT64_MIN, 256 };
 
@@ -89,7 +91,7 @@ static void pick_value(int *type, const char **sval, long *ival)
 	case JWT_VALUE_INT: *ival = INTV[vh_below(&rng, 7)]; break;
 	case JWT_VALUE_BOOL: *ival = (long)vh_below(&rng, 2); break;
 	case JWT_VALUE_JSON: *sval = JSONV[vh_below(&rng, 5)]; break;
-	default: *sval = STRV[vh_below(&rng, 7)]; break;
+	default: *sval = STRV[vh_below(&rng, 2) ? vh_below(&rng, 7) : vh_below(&rng, NSTRV)]; break;
 	}
 }
 
